@@ -192,6 +192,22 @@ EXT2 = {
     "C20": "Audit rounds: qchem.vibronic.sample over every zero pattern of the thermal squeezing vector (shape and routing; the sampler is owned).",
 }
 
+# added during the third and fourth seeded rounds (DESIGN.md section 14); appended after EXT2
+EXT3 = {
+    "C02": "Later rounds: make_traceless variants of the graph embeddings.",
+    "C05": "Later rounds: post-selected measurements on entangled bosonic cat states (spectator judged against the dense Fock reference).",
+    "C06": "Later rounds: the rejection sampler of the bosonic simulator on non-Gaussian states (real- and complex-representation cat states, Fock(2), GKP; alone or entangled; either mode; homodyne at 3 angles and heterodyne): every peak the sampler can pick and 44 answered heights per phase-space point locate the acceptance probability; acceptance x proposal density (reconstructed from the arguments of the draws) must be proportional to the Born density; returned value and conditional mixture for the accepted point.",
+    "C07": "Later rounds: GKP states on the Fock simulator.",
+    "C09": "Later rounds: the state after reset + re-run must equal a fresh engine's.",
+    "C10": "Later rounds: measured outcomes equal to zero.",
+    "C11": "Later rounds: every order of three-mode operations in the merging compilers.",
+    "C12": "Later rounds: squeezers with a phase, Xunitary without a device.",
+    "C15": "Later rounds: observables read after sf.hbar was changed.",
+    "C17": "Later rounds: make_traceless in graph_embed.",
+    "C18": "Later rounds: falsy measurement settings.",
+    "C20": "Later rounds: parameters updated in place between evaluations.",
+}
+
 
 def main():
     props = [json.loads(l) for l in open(os.path.join(HERE, "properties.jsonl"))]
@@ -209,7 +225,7 @@ def main():
                     "evidence_file": f"/verif/evidence/{pid}.json",
                     "replay_cmd_template": f"./check {pid} --replay {{path}}",
                     "engine": "mc-explorer",
-                    "level_claimed": {"category": cat, "text": text + (" " + EXT[pid] if pid in EXT else "") + (" " + EXT2[pid] if pid in EXT2 else ""), "design_ref": ref + ("; section 9b" if pid in EXT else "") + ("; section 13" if pid in EXT2 else "")},
+                    "level_claimed": {"category": cat, "text": text + (" " + EXT[pid] if pid in EXT else "") + (" " + EXT2[pid] if pid in EXT2 else "") + (" " + EXT3[pid] if pid in EXT3 else ""), "design_ref": ref + ("; section 9b" if pid in EXT else "") + ("; section 13" if pid in EXT2 else "") + ("; section 14" if pid in EXT3 else "")},
                     "level_note": note,
                     "technique": tech,
                 }
